@@ -31,7 +31,7 @@ class SnapRecord:
         self.mtimes = {}
 
 
-def make_pool(r, mn, mx, n=14):
+def make_pool(r, mn, mx, n=19):
     """File contents with heavy overlap: identical files, shared prefixes/suffixes (aligned
     and unaligned), a block repeated inside one file, zeros, empty."""
     base = [r.randbytes(r.choice([mx // 2, mx, 3 * mx + 1, 7 * mx + 3, 12 * mx])) for _ in range(4)]
@@ -48,6 +48,8 @@ def make_pool(r, mn, mx, n=14):
         b'',
         r.randbytes(3),
         blk + base[0] + blk,
+        r.randbytes(5), r.randbytes(5), r.randbytes(5),       # equal sizes, different contents, bundled into one chunk
+        r.randbytes(mx // 2 + 1), r.randbytes(mx // 2 + 1),
     ]
     while len(pool) < n:
         pool.append(r.randbytes(r.randrange(1, 9 * mx)))
@@ -56,7 +58,7 @@ def make_pool(r, mn, mx, n=14):
 
 class World:
     def __init__(self, seed, settings, flavour='sync', concurrent=3, graph=None, scratch=None,
-                 latency=True, cache=None):
+                 latency=True, cache=None, reuse_repos=False):
         self.r = random.Random(seed)
         self.seed = seed
         self.settings = settings
@@ -82,6 +84,8 @@ class World:
         self.foreign = {}
         self.ops_log = []
         self.quiet_monitor = False      # set while the harness itself plants objects
+        self.reuse_repos = reuse_repos
+        self._repos = {}
 
     def close(self):
         self.clock.uninstall()
@@ -239,20 +243,75 @@ class World:
             out[os.path.realpath(p)] = data
         return out
 
-    async def repo(self, user, concurrent=None):
+    async def repo(self, user, concurrent=None, fresh=False):
+        """A Repository for this user: a new object per command (CLI use) or, with reuse_repos, one
+        long-lived object per user (library use)."""
         u = self.users[user]
-        return await rep.unlocked(self.backend(user), u.key, u.password,
+        if self.reuse_repos and not fresh and user in self._repos:
+            return self._repos[user]
+        repo = await rep.unlocked(self.backend(user), u.key, u.password,
                                   concurrent=concurrent or self.concurrent, cache=self.cache)
+        if self.reuse_repos and not fresh:
+            self._repos[user] = repo
+        return repo
 
-    async def snapshot(self, user, fileset, note=None, capture=True):
+    async def faulty_gc(self, user, what, names=None):
+        """clean / delete during which ONE download of a snapshot object returns short or garbled bytes
+        (transient read fault).  The command may fail; it must not damage anything."""
+        state = {'left': 1}
+        mode = self.r.choice(['half', 'empty', 'flip', 'minus1'])
+
+        def garble(name, data):
+            if not name.startswith('snapshots/') or state['left'] <= 0 or not data:
+                return data
+            state['left'] -= 1
+            if mode == 'half':
+                return data[:len(data) // 2]
+            if mode == 'empty':
+                return b''
+            if mode == 'minus1':
+                return data[:-1]
+            b = bytearray(data)
+            b[self.r.randrange(len(b))] ^= 0x10
+            return bytes(b)
+        repo = await self.repo(user, fresh=True)
+        self.store.garble = garble
+        failed = False
+        try:
+            with rep.capture():
+                if what == 'clean':
+                    await repo.clean()
+                else:
+                    await repo.delete_snapshots(list(names), confirm=False)
+        except Exception:
+            failed = True
+        finally:
+            self.store.garble = None
+        await self.drain()
+        for n in list(names or []):
+            if n in self.snaps and self.snaps[n].location not in self.store.objects:
+                self.deleted[n] = self.snaps.pop(n)
+        self.ops_log.append((f'faulty-{what}', user, mode, failed, state['left']))
+        if state['left'] == 0:
+            self.count('gc_with_garbled_snapshot_read')
+        return failed
+
+    async def snapshot(self, user, fileset, note=None, capture=True, fresh=False, repo=None, shuffle_args=None):
+        """repo: use this (already unlocked) Repository object instead of the user's own.
+        shuffle_args: a Random -> the files are passed as individual path arguments in a shuffled order."""
         truth = self.write_fileset(user, fileset)
-        repo = await self.repo(user)
+        if repo is None:
+            repo = await self.repo(user, fresh=fresh)
         before_calls = len(self.store.log)
+        args = [Path(self.srcdir(user))]
+        if shuffle_args is not None:
+            args = [Path(p) for p in truth]
+            shuffle_args.shuffle(args)
         if capture:
             with rep.capture():
-                res = await repo.snapshot(paths=[Path(self.srcdir(user))], note=note)
+                res = await repo.snapshot(paths=args, note=note)
         else:
-            res = await repo.snapshot(paths=[Path(self.srcdir(user))], note=note)
+            res = await repo.snapshot(paths=args, note=note)
         rec = SnapRecord(res.name, res.location, user, truth, res.data['utc_timestamp'], note, list(res.chunks))
         self.snaps[res.name] = rec
         self.ops_log.append(('snapshot', user, res.name[:10], len(fileset)))
@@ -260,8 +319,8 @@ class World:
         rec.events = self.store.log[before_calls:]
         return rec
 
-    async def delete(self, user, names):
-        repo = await self.repo(user)
+    async def delete(self, user, names, fresh=False):
+        repo = await self.repo(user, fresh=fresh)
         self.ops_log.append(('delete', user, [n[:10] for n in names]))
         with rep.capture():
             await repo.delete_snapshots(list(names), confirm=False)
@@ -269,8 +328,8 @@ class World:
             self.deleted[n] = self.snaps.pop(n)
         self.count('deletes')
 
-    async def clean(self, user):
-        repo = await self.repo(user)
+    async def clean(self, user, fresh=False):
+        repo = await self.repo(user, fresh=fresh)
         self.ops_log.append(('clean', user))
         with rep.capture():
             await repo.clean()
@@ -549,7 +608,8 @@ async def run_history(world, nops, mix, audits, r, restore_every=4, sequential_r
             u = r.choice([x for x in users if world.users[x].family == fam])
             # a shared-key user only reuses chunks; paths differ per user dir, content is the same
             before = len(world.store.log)
-            rec = await world.snapshot(u, last_fileset[u0][0])
+            # unchanged data, possibly handed over as individual arguments in another order
+            rec = await world.snapshot(u, last_fileset[u0][0], shuffle_args=r if r.random() < 0.5 else None)
             events = world.store.log[before:]
             payload = [e for e in events if e['op'] in ('upload_stream',) or
                        (e['op'] == 'upload' and e['name'].startswith('data/'))]
@@ -581,6 +641,24 @@ async def run_history(world, nops, mix, audits, r, restore_every=4, sequential_r
                 world.count('deletes_sharing_chunks_with_survivor')
         elif op == 'clean':
             await world.clean(r.choice(users))
+        elif op == 'churn':
+            # data stored through a long-lived object, removed through ANOTHER object of the same user
+            # (a second process), then stored again through the first one
+            u = r.choice(users)
+            fs = gen_fileset(r, pool)
+            rec = await world.snapshot(u, fs)
+            await world.delete(u, [rec.name], fresh=True)
+            if r.random() < 0.5:
+                await world.clean(r.choice(users), fresh=True)
+            await world.snapshot(u, fs)
+            world.count('churn_sequences')
+        elif op == 'gclean':
+            await world.faulty_gc(r.choice(users), 'clean')
+        elif op == 'gdel':
+            u = r.choice(users)
+            own = [n for n, s in world.snaps.items() if s.user == u or not world.encrypted]
+            if own:
+                await world.faulty_gc(u, 'delete', r.sample(own, 1))
         elif op == 'group':
             k = r.randint(2, 4)
             members = r.sample(users, min(k, len(users)))
@@ -588,7 +666,7 @@ async def run_history(world, nops, mix, audits, r, restore_every=4, sequential_r
             for u in members:
                 fs = gen_fileset(r, pool)
                 last_fileset.pop(u, None)
-                coros.append(world.snapshot(u, fs, capture=False))
+                coros.append(world.snapshot(u, fs, capture=False, fresh=True))
             if world.snaps:
                 reader = r.choice(users)
                 coros.append(_quiet_restore(world, reader))
@@ -614,7 +692,7 @@ async def run_history(world, nops, mix, audits, r, restore_every=4, sequential_r
 
 
 async def _quiet_restore(world, user):
-    repo = await world.repo(user)
+    repo = await world.repo(user, fresh=True)
     target = tempfile.mkdtemp(prefix='grp-restore-', dir=world.scratch)
     try:
         return await repo.restore(path=Path(target))
